@@ -313,6 +313,10 @@ class AsyncStubSim(StubSim):
             if kind == "set_data":
                 val = f"{self.sid}:sd{j}@{time}#{self.k}"
                 payload = {f"{self.sid}.{call['src_eid']}": {call["dst"]: {call["attr"]: val}}}
+                if call.get("also_src_eid"):
+                    # several entities of this simulator write the same attribute in one call
+                    payload[f"{self.sid}.{call['also_src_eid']}"] = {
+                        call["dst"]: {call["attr"]: f"{self.sid}:sd{j}b@{time}#{self.k}"}}
                 q = run.rec("async_call", self.sid, "set_data", payload, time)
                 try:
                     yield self.mosaik.set_data(payload)
